@@ -402,7 +402,7 @@ add_shape("mix-empty-blocks-under-recursion", "mix",
 # budget and the 8 MiB stack: the deepest data the arena can hold (a few thousand levels) is the worst case,
 # so those depths are run on purpose rather than left to where a bisection happens to land
 DATA_UNDER_REC_EXTRA = (2000, 2400, 2800, 3000, 3100, 3200, 3300, 3400, 3500, 3600)
-add_shape("mix-data-copy-under-recursion", "mix", _under_recursion(_build_data, "make b get a"), max_depth=10_000, quick=False, never_ok=True,
+add_shape("mix-data-copy-under-recursion", "mix", _under_recursion(_build_data, "make b get a"), max_depth=10_000, quick=True, never_ok=True,
           extra=DATA_UNDER_REC_EXTRA)
 add_shape("mix-data-print-under-recursion", "mix", _under_recursion(_build_data, "shout(a)"), max_depth=10_000, quick=True, never_ok=True,
           extra=DATA_UNDER_REC_EXTRA)
